@@ -435,7 +435,7 @@ int __printf(void (*printchar_handler)(void *d, int c),
             width = atoi(format);
             char c = *format;
             while (isdigit(c))
-                ++format;
+                c = *++format;
         }
         width = MAX(width, 0);
 
@@ -451,7 +451,7 @@ int __printf(void (*printchar_handler)(void *d, int c),
             precision = atoi(format);
             char c = *format;
             while (isdigit(c))
-                ++format;
+                c = *++format;
         }
         precision = precision >= 0 ? precision : (ops &= ~OPS_PREC_IS_GIVEN, 0);
 
